@@ -148,6 +148,10 @@ let spec_line (f : string list) : string =
     let x = mbytes x in
     (match v2_spec x with Some h -> v2_hdr h | None -> "REJ") ^ " possible=" ^ b01 (v2_possible x)
   | ["tlv"; x] -> "[" ^ show_sitems (walk (mbytes x)) ^ "]"
+  | ["htlv"; x] ->
+    (match v2_spec (mbytes x) with
+     | Some h -> "[" ^ show_sitems (walk (spec_tlv_section h)) ^ "]"
+     | None -> "REJ")
   | _ -> "-"
 
 let () =
